@@ -393,8 +393,138 @@ def t_doc(tree):
     return tree
 
 
+def t_splitcond(tree):
+    """`if a and b: X` (no else) -> `if a: if b: X`"""
+    for n in ast.walk(tree):
+        if isinstance(n, ast.If) and not n.orelse and isinstance(n.test, ast.BoolOp) and isinstance(n.test.op, ast.And) and len(n.test.values) == 2:
+            a, b = n.test.values
+            n.test = a
+            n.body = [ast.If(test=b, body=n.body, orelse=[])]
+    return tree
+
+
+def t_whiletrue(tree):
+    """`while c: B` (no else) -> `while True: if not c: break; B`"""
+    for n in ast.walk(tree):
+        if isinstance(n, ast.While) and not n.orelse and not (isinstance(n.test, ast.Constant) and n.test.value is True):
+            n.body = [ast.If(test=_neg(n.test), body=[ast.Break()], orelse=[])] + n.body
+            n.test = ast.Constant(True)
+    return tree
+
+
+def t_compr2loop(tree):
+    """`x = [e for v in it]` at statement level in a function -> `x = []; for v in it: x.append(e)` (one generator, simple target,
+    the loop variable is not otherwise a name of the function)"""
+    for fn in ast.walk(tree):
+        if not isinstance(fn, (ast.FunctionDef, ast.AsyncFunctionDef)) or _is_generator(fn):
+            continue
+        used = {n.id for n in ast.walk(fn) if isinstance(n, ast.Name)} | set(_params(fn))
+        for owner, f, body in list(_blocks(fn)):
+            new = []
+            for s in body:
+                if isinstance(s, ast.Assign) and len(s.targets) == 1 and isinstance(s.targets[0], ast.Name) and isinstance(s.value, ast.ListComp) \
+                        and len(s.value.generators) == 1 and not s.value.generators[0].is_async:
+                    g = s.value.generators[0]
+                    tv = {n.id for n in ast.walk(g.target) if isinstance(n, ast.Name)}
+                    x = s.targets[0].id
+                    occurrences = sum(1 for n in ast.walk(fn) if isinstance(n, ast.Name) and n.id in tv)
+                    inside = sum(1 for n in ast.walk(s) if isinstance(n, ast.Name) and n.id in tv)
+                    reads_x = any(isinstance(n, ast.Name) and n.id == x for n in ast.walk(s.value))
+                    if occurrences == inside and not reads_x and not any(isinstance(n, (ast.NamedExpr, ast.Lambda)) for n in ast.walk(s.value)):
+                        new.append(ast.Assign(targets=[ast.Name(id=x, ctx=ast.Store())], value=ast.List(elts=[], ctx=ast.Load()), lineno=0))
+                        inner = [ast.Expr(value=ast.Call(func=ast.Attribute(value=ast.Name(id=x, ctx=ast.Load()), attr="append", ctx=ast.Load()),
+                                                         args=[s.value.elt], keywords=[]))]
+                        for cond in reversed(g.ifs):
+                            inner = [ast.If(test=cond, body=inner, orelse=[])]
+                        new.append(ast.For(target=g.target, iter=g.iter, body=inner, orelse=[], lineno=0))
+                        continue
+                new.append(s)
+            setattr(owner, f, new)
+    return tree
+
+
+class _Swap(ast.NodeTransformer):
+    def visit_Compare(self, n):
+        self.generic_visit(n)
+        flip = {ast.Lt: ast.Gt, ast.Gt: ast.Lt, ast.LtE: ast.GtE, ast.GtE: ast.LtE, ast.Eq: ast.Eq, ast.NotEq: ast.NotEq}
+        if len(n.ops) == 1 and type(n.ops[0]) in flip and not isinstance(n.comparators[0], ast.Constant):
+            return ast.Compare(left=n.comparators[0], ops=[flip[type(n.ops[0])]()], comparators=[n.left])
+        return n
+
+
+def t_swapcmp(tree):
+    """`a < b` -> `b > a` (neither side a literal)"""
+    return _Swap().visit(tree)
+
+
+def t_tuplesplit(tree):
+    """`a, b = x, y` -> `a = x; b = y` when no target name is read by a later value"""
+    for owner, f, body in list(_blocks(tree)):
+        new = []
+        for s in body:
+            if isinstance(s, ast.Assign) and len(s.targets) == 1 and isinstance(s.targets[0], ast.Tuple) and isinstance(s.value, ast.Tuple) \
+                    and len(s.targets[0].elts) == len(s.value.elts) and all(isinstance(t, ast.Name) for t in s.targets[0].elts) \
+                    and not any(isinstance(v, ast.Starred) for v in s.value.elts):
+                tg = [t.id for t in s.targets[0].elts]
+                ok = True
+                for i, v in enumerate(s.value.elts):
+                    if any(isinstance(n, ast.Name) and n.id in tg[:i] for n in ast.walk(v)) or any(isinstance(n, ast.Call) for n in ast.walk(v)) and i > 0 and False:
+                        ok = False
+                if ok:
+                    for t, v in zip(s.targets[0].elts, s.value.elts):
+                        new.append(ast.Assign(targets=[t], value=v, lineno=0))
+                    continue
+            new.append(s)
+        setattr(owner, f, new)
+    return tree
+
+
+def t_match2if(tree):
+    """`match x: case <literal | literal>: ... case _: ...` -> if/elif chain (subject a plain name or attribute chain, no guards/captures)"""
+    def lit(p):
+        if isinstance(p, ast.MatchValue) and isinstance(p.value, (ast.Constant, ast.Attribute)):
+            return [p.value]
+        if isinstance(p, ast.MatchSingleton):
+            return None
+        if isinstance(p, ast.MatchOr):
+            out = []
+            for q in p.patterns:
+                r = lit(q)
+                if r is None:
+                    return None
+                out += r
+            return out
+        return None
+    for owner, f, body in list(_blocks(tree)):
+        new = []
+        for s in body:
+            if isinstance(s, ast.Match) and isinstance(s.subject, (ast.Name, ast.Attribute)) and all(c.guard is None for c in s.cases):
+                arms, default, ok = [], None, True
+                for c in s.cases:
+                    if isinstance(c.pattern, ast.MatchAs) and c.pattern.pattern is None and c.pattern.name is None:
+                        default = c.body
+                        break
+                    vals = lit(c.pattern)
+                    if vals is None:
+                        ok = False
+                        break
+                    tests = [ast.Compare(left=s.subject, ops=[ast.Eq()], comparators=[v]) for v in vals]
+                    arms.append((tests[0] if len(tests) == 1 else ast.BoolOp(op=ast.Or(), values=tests), c.body))
+                if ok and arms:
+                    chain = default or []
+                    for test, b in reversed(arms):
+                        chain = [ast.If(test=test, body=b, orelse=chain)]
+                    new.extend(chain)
+                    continue
+            new.append(s)
+        setattr(owner, f, new)
+    return tree
+
+
 TRANSFORMS = {"rename": t_rename, "suffix": t_suffix, "ret": t_ret, "cmp": t_cmp, "flip": t_flip, "early": t_early,
-              "nest": t_nest, "ann": t_ann, "tmpcall": t_tmpcall, "doc": t_doc}
+              "nest": t_nest, "ann": t_ann, "tmpcall": t_tmpcall, "doc": t_doc,
+              "splitcond": t_splitcond, "whiletrue": t_whiletrue, "compr2loop": t_compr2loop, "swapcmp": t_swapcmp,
+              "tuplesplit": t_tuplesplit, "match2if": t_match2if}
 
 
 def rewrite(src_root: str, dst_root: str, names, only=None) -> int:
